@@ -524,7 +524,15 @@ type Lemma struct {
 	Line  int
 }
 
+type GhostDecl struct {
+	Name   string
+	Params []SVar
+	Ret    string
+	Pkg    string
+}
+
 type ContractSet struct {
+	Ghosts map[string]*GhostDecl
 	Funcs  map[string]*FuncContract // key: pkgpath + "::" + Key
 	Pures  map[string]*PureFunc     // key: name (global namespace; pkg recorded)
 	Lemmas []*Lemma
@@ -533,7 +541,7 @@ type ContractSet struct {
 }
 
 func NewContractSet() *ContractSet {
-	return &ContractSet{Funcs: map[string]*FuncContract{}, Pures: map[string]*PureFunc{}, TypeInv: map[string]*SExpr{}}
+	return &ContractSet{Funcs: map[string]*FuncContract{}, Pures: map[string]*PureFunc{}, TypeInv: map[string]*SExpr{}, Ghosts: map[string]*GhostDecl{}}
 }
 
 // ParseContractText parses the //@ lines of one file.
@@ -670,6 +678,17 @@ func (cs *ContractSet) ParseContractText(pkgPath, file, text string) error {
 			}
 			pf.Pkg = pkgPath
 			cs.Pures[pf.Name] = pf
+			cur = nil
+			curLoop = nil
+		case "ghost":
+			pf, err := parsePureDecl("func " + rest)
+			if err != nil {
+				return fmt.Errorf("%s:%d: %v", file, ln+1, err)
+			}
+			if len(pf.Params) == 0 || pf.Body != nil {
+				return fmt.Errorf("%s:%d: ghost declaration needs parameters and no body", file, ln+1)
+			}
+			cs.Ghosts[pf.Name] = &GhostDecl{Name: pf.Name, Params: pf.Params, Ret: pf.Ret, Pkg: pkgPath}
 			cur = nil
 			curLoop = nil
 		case "lemma", "axiom":
